@@ -80,7 +80,8 @@ func runHands(ctx *RunCtx, rep *Report, stream int64, n int, g GenOpts, scripted
 		}
 		h := &Hand{Prop: ctx.Prop, C: c, R: r, Rep: local, Seed: ctx.Seed, CaseIdx: i, Scripted: script}
 		if i >= len(scripted) && i%16 == 5 && c.Reuse == 0 {
-			twinHands(h, r)
+			// (set up inside playHand, so that C06's guard covers the first twin's engine calls as well)
+			h.pre = func() { twinHands(h, r) }
 		}
 		if ctx.Prop == "C06" {
 			if !playHandGuarded(ctx, h, mk(), local) {
